@@ -374,7 +374,6 @@ private:
                 more_ = !cursor_mode_;
                 break;
             }
-            case jsoncons::ubjson::ubjson_type::no_op_type: 
             {
                 break;
             }
@@ -615,6 +614,12 @@ private:
                 more_ = false;
                 return;
             }
+            if (JSONCONS_UNLIKELY(!is_value_type_marker(b))) // also when the count that follows is zero
+            {
+                ec = ubjson_errc::unknown_type;
+                more_ = false;
+                return;
+            }
             c = source_.peek();
             if (JSONCONS_UNLIKELY(c.eof))
             {
@@ -712,6 +717,12 @@ private:
                 more_ = false;
                 return;
             }
+            if (JSONCONS_UNLIKELY(!is_value_type_marker(b))) // also when the count that follows is zero
+            {
+                ec = ubjson_errc::unknown_type;
+                more_ = false;
+                return;
+            }
             c = source_.peek();
             if (JSONCONS_UNLIKELY(c.eof))
             {
@@ -790,6 +801,31 @@ private:
             more_ = false;
         }
         state_stack_.pop_back();
+    }
+
+    static bool is_value_type_marker(uint8_t b)
+    {
+        switch (b)
+        {
+            case jsoncons::ubjson::ubjson_type::null_type: 
+            case jsoncons::ubjson::ubjson_type::true_type: 
+            case jsoncons::ubjson::ubjson_type::false_type: 
+            case jsoncons::ubjson::ubjson_type::int8_type: 
+            case jsoncons::ubjson::ubjson_type::uint8_type: 
+            case jsoncons::ubjson::ubjson_type::int16_type: 
+            case jsoncons::ubjson::ubjson_type::int32_type: 
+            case jsoncons::ubjson::ubjson_type::int64_type: 
+            case jsoncons::ubjson::ubjson_type::float32_type: 
+            case jsoncons::ubjson::ubjson_type::float64_type: 
+            case jsoncons::ubjson::ubjson_type::high_precision_number_type: 
+            case jsoncons::ubjson::ubjson_type::char_type: 
+            case jsoncons::ubjson::ubjson_type::string_type: 
+            case jsoncons::ubjson::ubjson_type::start_array_marker: 
+            case jsoncons::ubjson::ubjson_type::start_object_marker:
+                return true;
+            default:
+                return false;
+        }
     }
 
     // number = [ minus ] int [ frac ] [ exp ] (RFC 8259), as the UBJSON specification requires for high-precision numbers
